@@ -28,8 +28,8 @@ NaN2 == F("nan", 0, "nan2")
 FDom == {FNInf, FNMax, N55, NTiny, NZ, PZ, PTiny, P55, FPMax, FPInf, NaN1, NaN2}
 
 \* bounds that can be written as literals, and those that need an expression
-LitBounds  == IF Tier \in {"quick", "c07"} THEN {N55, PZ, P55} ELSE {N55, NZ, PZ, P55}
-ExprBounds == IF Tier = "c07" THEN {FPInf, NaN1} ELSE IF Tier = "quick" THEN {FNInf, FPInf, NaN1} ELSE {FNInf, FNMax, FPMax, FPInf, NaN1}
+LitBounds  == IF Tier \in {"quick", "c07", "c12"} THEN {N55, PZ, P55} ELSE {N55, NZ, PZ, P55}
+ExprBounds == IF Tier \in {"c07", "c12"} THEN {FPInf, NaN1} ELSE IF Tier = "quick" THEN {FNInf, FPInf, NaN1} ELSE {FNInf, FNMax, FPMax, FPInf, NaN1}
 
 Rule(k, b, sp) == [k |-> k, b |-> b, fn |-> "", p |-> <<>>, sp |-> sp]
 Finite == [k |-> "finite", b |-> PZ, fn |-> "", p |-> <<>>, sp |-> "lit"]
@@ -55,15 +55,18 @@ San(fn, p) == [k |-> "with", fn |-> fn, p |-> p]
 AllSans == {<<>>, <<San("clamp", <<N55, P55>>)>>, <<San("nan_to", <<PZ>>)>>}
 FewSans == {<<>>, <<San("nan_to", <<PZ>>)>>}
 
-Defaults == IF Tier \in {"quick", "c07"} THEN {<<P55>>} ELSE {<<P55>>, <<NaN1>>, <<FPInf>>}
+Defaults == IF Tier = "c12" THEN {<<P55>>, <<NaN1>>} ELSE IF Tier \in {"quick", "c07"} THEN {<<P55>>} ELSE {<<P55>>, <<NaN1>>, <<FPInf>>}
 
 StdTraits == <<"Debug", "Clone", "Copy", "PartialEq", "PartialOrd",
                "AsRef", "Deref", "Borrow", "Into", "Display", "FromStr", "Default",
                "Serialize", "Deserialize">>
 
+HasFinite(val) == \E i \in DOMAIN val : val[i].k = "finite"
+\* Eq and Ord may only be derived together with `finite` (float/validate.rs); the C12 slice derives them
+OrdTraits(vmode, val) == IF Tier = "c12" /\ vmode = "std" /\ HasFinite(val) THEN <<"Eq", "Ord">> ELSE <<>>
 DeclC(conv, ty, san, vmode, val, dflt) ==
   [fam |-> "float", ty |-> ty, san |-> san, vmode |-> vmode, val |-> val,
-   traits |-> StdTraits \o (IF vmode = "none" /\ conv = "From" THEN <<"From">> ELSE <<"TryFrom">>),
+   traits |-> StdTraits \o OrdTraits(vmode, val) \o (IF vmode = "none" /\ conv = "From" THEN <<"From">> ELSE <<"TryFrom">>),
    dflt |-> dflt]
 Decl(ty, san, vmode, val, dflt) == DeclC("From", ty, san, vmode, val, dflt)
 
@@ -73,7 +76,10 @@ CustomVals == {<<[k |-> "custom", b |-> PZ, fn |-> "pos", p |-> <<PZ>>, sp |-> "
 WithFinite(SS) == SS \cup {S \cup {Finite} : S \in SS}
 
 Guards ==
-  IF Tier = "c07"     \* C07 slice: every order of lower + upper + finite + predicate
+  IF Tier = "c12"     \* C12 slice: finite (+ optional bounds) with Eq/Ord; a few guards without finite for contrast
+  THEN {<<S \cup {Finite}, FewSans>> : S \in Pairs \cup Singles \cup {{}}}
+       \cup {<<S, {<<>>}>> : S \in Singles \cup {{PredNotNan}}}
+  ELSE IF Tier = "c07"     \* C07 slice: every order of lower + upper + finite + predicate
   THEN {<<S \cup {Finite, PredNe}, {<<>>}>> : S \in Pairs} \cup {<<S \cup {Finite}, {<<>>}>> : S \in Pairs}
   ELSE IF Tier = "quick"
   THEN {<<S, FewSans>> : S \in WithFinite(Pairs)}
